@@ -2,12 +2,13 @@
 # Usage: matrix_for.sh <label> <patch> [<label> <patch> ...]   - applies each patch to /repo, runs all checks, undoes it.
 export GOFLAGS=-mod=mod GOPROXY=off GOSUMDB=off GOTOOLCHAIN=local GOMAXPROCS=2 CGO_ENABLED=0; unset GOWORK
 cd /verif
-git -C /repo diff --quiet || { echo "/repo is dirty"; exit 2; }
+REPO=${XKV_REPO:-/repo}
+git -C $REPO diff --quiet || { echo "$REPO is dirty"; exit 2; }
 while [ $# -ge 2 ]; do
   s=$1; patch=$2; shift 2; pid=${s%-*}
-  if ! git -C /repo apply "$patch" 2>/dev/null; then git -C /repo apply -3 "$patch" 2>/dev/null || { echo "$s patch-failed"; git -C /repo reset -q --hard HEAD; continue; }; fi
-  res=$(${XKV_BIN:-bin/xkvlint} -prop matrix -repo /repo 2>&1)
-  git -C /repo reset -q --hard HEAD
+  if ! git -C $REPO apply "$patch" 2>/dev/null; then git -C $REPO apply -3 "$patch" 2>/dev/null || { echo "$s patch-failed"; git -C $REPO reset -q --hard HEAD; continue; }; fi
+  res=$(${XKV_BIN:-bin/xkvlint} -prop matrix -repo $REPO 2>&1)
+  git -C $REPO reset -q --hard HEAD
   own=$(echo "$res" | grep "^$pid " | grep -v TOOL-FAILURE | head -3 | sed 's/^/    /')
   others=$(echo "$res" | grep -v "^$pid " | grep -E "^C[0-9]+ " | awk '{print $1}' | sort -u | paste -sd, )
   tf=$(echo "$res" | grep TOOL-FAILURE | head -2)
